@@ -9,7 +9,7 @@ from . import common as C
 from .obs import obs_term
 from .props import asm
 
-HEADER = "From A816 Require Import Oracle.Coreo.\n" + asm.TABLES
+HEADER = "From A816 Require Import Oracle.Coreo Model.Ips.\n" + asm.TABLES
 CASE_TYPE = "ccase"
 CHECK = "check T"
 MODEL_VIEW = "model_view T"
@@ -68,7 +68,8 @@ def spec_term(case, ob) -> str:
                 + C.clist(em, lambda x: f"({C.nat(x[0])},{C.z(x[1])},{C.nat(x[2])},{C.z(x[3])})") + ")")
     if t == "blocks":
         ns = [f"{{| tn_kind := {KIND.get(r[1], 0)}; tn_addr := {C.z(r[2])}; tn_pc := {C.z(r[3])}; "
-              f"tn_bytes := {C.zlist(r[4] if isinstance(r[4], list) else [])} |}}" for r in tr["emit"]]
+              f"tn_bytes := {C.zlist(r[4] if isinstance(r[4], list) else [])}; "
+              f"tn_ips := {C.clist(r[5] if len(r) > 5 else [], lambda b: C.cpair(C.zlist(b[0]), C.z(b[1])))} |}}" for r in tr["emit"]]
         return (f"(SBlocks {C.cbool(sp['high'])} {C.cbool(sp.get('user_map', False))} [{';'.join(ns)}] "
                 f"{C.z(tr['end_pc'])})")
     raise ValueError(t)
